@@ -40,6 +40,7 @@ type c39Obs struct {
 	ID      string `json:"id"`
 	Outcome string `json:"outcome"` // complete | error | closed | hang | protocol
 	Rows    int    `json:"rows"`
+	Intact  bool   `json:"intact"` // every delivered row is byte-identical to a produced row, no row twice
 	Detail  string `json:"detail,omitempty"`
 	Drift   string `json:"drift,omitempty"`
 }
@@ -142,12 +143,23 @@ func TestVerifProtoResults(t *testing.T) {
 	}
 	defer px.stop()
 
+	var trace *verifkit.Out
+	if tp := verifkit.TraceOutPath(); tp != "" {
+		if trace, err = verifkit.OpenOutPath(tp); err != nil {
+			t.Fatalf("trace output: %v", err)
+		}
+	}
 	stats := map[string]int{}
 	for i := range cases {
 		c := &cases[i]
 		res := verifkit.Result{Case: i}
 		obs := c39Run(px, c, &res)
 		res.Obs = obs
+		if trace != nil {
+			// the observation as a trace line for TLC (spec/Protocol_trace.tla, ev = "result")
+			trace.Write(map[string]interface{}{"t": c.ID, "ev": "result", "limit": c.Limit, "mode": c.Mode, "proto": c.Proto,
+				"rowlen": c.RowLen, "n": c.N, "outcome": obs.Outcome, "rows": obs.Rows, "intact": obs.Intact, "detail": obs.Detail})
+		}
 		stats[obs.Outcome]++
 		if obs.Drift != "" {
 			stats["model_drift"]++
@@ -160,6 +172,9 @@ func TestVerifProtoResults(t *testing.T) {
 	extra := map[string]interface{}{}
 	for k, v := range stats {
 		extra[k] = v
+	}
+	if trace != nil {
+		trace.Close(len(cases), nil)
 	}
 	out.Close(len(cases), extra)
 }
@@ -272,6 +287,20 @@ func c39Run(px *pxProxy, c *c39Case, res *verifkit.Result) c39Obs {
 		r = cl.query(sql, onRow)
 	}
 	obs.Rows = r.Rows
+	obs.Intact = bad == ""
+	if dl >= 12 {
+		for be, m := range seen {
+			wantN := 0
+			if be < len(c.N) {
+				wantN = c.N[be]
+			}
+			for idx, k := range m {
+				if k != 1 || idx >= wantN {
+					obs.Intact = false
+				}
+			}
+		}
+	}
 	switch {
 	case r.Kind == "err":
 		obs.Outcome = "error"
